@@ -24,14 +24,14 @@ package core
 //@ modifies mapof(txn.nonces)
 //@ ensures [tracked-or-fallback] result == (if old(in(addr, txn.nonces)) then old(txn.nonces[addr]) else c20StateNonce(txn.fallback, addr))
 //@ ensures [cached] in(addr, txn.nonces) && txn.nonces[addr] == result
-//@ ensures [others-kept] forall a: common.Address :: a != addr ==> in(a, txn.nonces) == old(in(a, txn.nonces)) && txn.nonces[a] == old(txn.nonces[a])
+//@ ensures [others-kept] forall a: common.Address :: { mapval(txn.nonces)[a] } { in(a, mapdom(txn.nonces)) } a != addr ==> in(a, txn.nonces) == old(in(a, txn.nonces)) && txn.nonces[a] == old(txn.nonces[a])
 
 //@ func (*txNoncer).set props C20
 //@ panics none
 //@ requires [nonnil] txn != nil && txn.nonces != nil
 //@ modifies mapof(txn.nonces)
 //@ ensures [set] in(addr, txn.nonces) && txn.nonces[addr] == nonce
-//@ ensures [others-kept] forall a: common.Address :: a != addr ==> in(a, txn.nonces) == old(in(a, txn.nonces)) && txn.nonces[a] == old(txn.nonces[a])
+//@ ensures [others-kept] forall a: common.Address :: { mapval(txn.nonces)[a] } { in(a, mapdom(txn.nonces)) } a != addr ==> in(a, txn.nonces) == old(in(a, txn.nonces)) && txn.nonces[a] == old(txn.nonces[a])
 
 //@ func (*txNoncer).setIfLower props C20
 //@ panics none
@@ -40,7 +40,7 @@ package core
 //@ modifies mapof(txn.nonces)
 //@ ensures [min] in(addr, txn.nonces) && txn.nonces[addr] == min(cur, nonce)
 //@ ensures [never-raises] txn.nonces[addr] <= cur
-//@ ensures [others-kept] forall a: common.Address :: a != addr ==> in(a, txn.nonces) == old(in(a, txn.nonces)) && txn.nonces[a] == old(txn.nonces[a])
+//@ ensures [others-kept] forall a: common.Address :: { mapval(txn.nonces)[a] } { in(a, mapdom(txn.nonces)) } a != addr ==> in(a, txn.nonces) == old(in(a, txn.nonces)) && txn.nonces[a] == old(txn.nonces[a])
 
 // ---------------------------------------------------------------------------------------------------------------
 // tx_list.go: txSortedMap — nonce -> transaction map with a heap index of its keys
@@ -84,6 +84,7 @@ package core
 //@ panics none
 //@ modifies nothing
 //@ ensures [fresh-empty] fresh(result) && len(result.items) == 0 && isnil(result.cache)
+//@ ensures [fresh-parts] fresh(result.items) && fresh(result.index)
 //@ ensures [wf-items] c20ItemsOK(result) && c20CacheOK(result)
 //@ ensures [wf-index] assumed c20IndexOK(result)
 
@@ -115,6 +116,17 @@ package core
 //@ ensures [wf-index-distinct] c20DistOf(m.index)
 //@ ensures [wf-index-len] m.index != nil && len(*m.index) == len(m.items)
 //@ ensures [wf-index-heap] c20IndexHeap(m)
+
+// FRAMES WITHOUT `modifies`. The list operations whose loops keep them from having a provable `modifies` clause (engine_requests/C20.md §9, §14) havoc the whole
+// heap at call sites; what callers need back is stated as quantified postconditions ([pool-fields-untouched], [pool-parts-untouched], [pool-maps-untouched], …).
+// The view of a pool (used by removeTx's no-op clause): component pointers, configuration, signer, the CONTENT of its four maps (pending / queue:
+// address -> list, lookup: hash -> transaction, virtual nonces: address -> nonce) and its price heap header.
+//@ type C20PoolView struct { pending, queue, all, lookup, priced, noncer, nonces, fallback, beats, locals, pitems, pstales: int; pheap: Slice; config: TxPoolConfig; signer: types.Signer;
+//@     pendingDom: set[common.Address]; pendingVal: map[common.Address]int; queueDom: set[common.Address]; queueVal: map[common.Address]int;
+//@     lookupDom: set[common.Hash]; lookupVal: map[common.Hash]int; nonceDom: set[common.Address]; nonceVal: map[common.Address]int }
+//@ spec func c20PoolView(p: *TxPool) C20PoolView = C20PoolView{p.pending, p.queue, p.all, p.all.all, p.priced, p.pendingNonces, p.pendingNonces.nonces, p.pendingNonces.fallback,
+//@     p.beats, p.locals, p.priced.items, p.priced.stales, *p.priced.items, p.config, p.signer, mapdom(p.pending), mapval(p.pending), mapdom(p.queue), mapval(p.queue), mapdom(p.all.all), mapval(p.all.all),
+//@     mapdom(p.pendingNonces.nonces), mapval(p.pendingNonces.nonces)}
 
 // Forward(threshold): removes exactly the nonces below the threshold and returns exactly the removed transactions.
 //@ func (*txSortedMap).Forward props C20
@@ -185,6 +197,7 @@ package core
 //@ loop i invariant [not-found-yet] forall p: int :: { elems(*m.index)[p] } off(*m.index) <= p && p < off(*m.index) + i ==> elems(*m.index)[p] != nonce
 //@ loop i invariant [untouched] *m.index == old(*m.index) && elems(*m.index) == old(elems(*m.index))
 //@ loop i decreases len(*m.index) - i
+//@ modifies m.cache, mapof(m.items), *m.index, all(elems(uint64))
 //@ ensures [same-objects] m.items == old(m.items) && m.index == old(m.index)
 //@ ensures [lists-untouched] forall x: *txList :: { x.txs } x.txs == old(x.txs) && x.costcap == old(x.costcap) && x.gascap == old(x.gascap) && x.strict == old(x.strict)
 //@ ensures [values-untouched] (forall b: *big.Int :: { big(b) } big(b) == old(big(b))) && (forall t: *types.Transaction :: { t.data } t.data == old(t.data))
@@ -192,7 +205,8 @@ package core
 //@ ensures [removes-exactly-nonce] forall k: int :: { in(k, m.items) } in(k, m.items) <==> old(in(k, m.items)) && k != nonce
 //@ ensures [kept-untouched] forall k: int :: { in(k, m.items) } in(k, m.items) ==> m.items[k] == old(m.items[k])
 //@ ensures [count] len(m.items) == old(len(m.items)) - (if result then 1 else 0)
-//@ ensures [absent-unchanged] !result ==> m.cache == old(m.cache) && *m.index == old(*m.index) && elems(*m.index) == old(elems(*m.index))
+//@ ensures [absent-unchanged] !result ==> m.cache == old(m.cache) && *m.index == old(*m.index) && elems(*m.index) == old(elems(*m.index)) &&
+//@     mapdom(m.items) == old(mapdom(m.items)) && mapval(m.items) == old(mapval(m.items))
 //@ ensures [wf] c20MapOK(m)
 
 // Filter(f): removes exactly the transactions f accepts and returns exactly those.
@@ -208,6 +222,7 @@ package core
 //@ loop #1 invariant [visited-decided] forall k: int :: { in(k, visited) } old(in(k, m.items)) && in(k, visited) ==> (in(k, m.items) <==> !filter(old(m.items[k])))
 //@ loop #1 invariant [unvisited-kept] forall k: int :: { in(k, visited) } old(in(k, m.items)) && !in(k, visited) ==> in(k, m.items)
 //@ loop #1 invariant [count] len(removed) == old(len(m.items)) - len(m.items)
+//@ loop #1 invariant [returned-fresh] cap(removed) == 0 || fresh(removed)
 //@ loop #1 invariant [returned-nonnil] forall j: int :: { removed[j] } 0 <= j && j < len(removed) ==> removed[j] != nil
 //@ loop #1 invariant [returned-match] forall j: int :: { removed[j] } 0 <= j && j < len(removed) ==> filter(removed[j])
 //@ loop #1 invariant [returned-gone] forall j: int :: { removed[j] } 0 <= j && j < len(removed) ==> !in(c20Nonce(removed[j]), m.items)
@@ -215,6 +230,18 @@ package core
 //@ ensures [same-objects] m.items == old(m.items) && m.index == old(m.index)
 //@ ensures [lists-untouched] forall x: *txList :: { x.txs } x.txs == old(x.txs) && x.costcap == old(x.costcap) && x.gascap == old(x.gascap) && x.strict == old(x.strict)
 //@ ensures [values-untouched] (forall b: *big.Int :: { big(b) } big(b) == old(big(b))) && (forall t: *types.Transaction :: { t.data } t.data == old(t.data))
+//@ ensures [pool-fields-untouched] forall p: *TxPool :: { p.pending } { p.queue } { p.all } { p.pendingNonces } { p.signer } { p.priced } p.pending == old(p.pending) && p.queue == old(p.queue) && p.all == old(p.all) &&
+//@     p.priced == old(p.priced) && p.pendingNonces == old(p.pendingNonces) && p.beats == old(p.beats) && p.locals == old(p.locals) && p.config == old(p.config) && p.signer == old(p.signer)
+//@ ensures [pool-parts-untouched] (forall t: *txLookup :: { t.all } t.all == old(t.all)) && (forall t: *txNoncer :: { t.nonces } { t.fallback } t.nonces == old(t.nonces) && t.fallback == old(t.fallback))
+// (pointwise, not `mapdom(..) == old(mapdom(..))`: addresses and hashes have the SMT sort of the field heaps, an assumed equality of address-keyed arrays makes z3
+//  generate extensionality skolems across all of them — engine_requests/C20.md §15)
+//@ ensures [pool-index-maps-untouched] forall p: *TxPool, a: common.Address :: { mapval(p.pending)[a] } { in(a, mapdom(p.pending)) } { mapval(p.queue)[a] } { in(a, mapdom(p.queue)) }
+//@     p.pending[a] == old(p.pending[a]) && in(a, p.pending) == old(in(a, p.pending)) && p.queue[a] == old(p.queue[a]) && in(a, p.queue) == old(in(a, p.queue))
+//@ ensures [pool-lookup-untouched] forall t: *txLookup, h: common.Hash :: { mapval(t.all)[h] } { in(h, mapdom(t.all)) } t.all[h] == old(t.all[h]) && in(h, t.all) == old(in(h, t.all))
+//@ ensures [pool-nonces-untouched] forall t: *txNoncer, a: common.Address :: { mapval(t.nonces)[a] } { in(a, mapdom(t.nonces)) } t.nonces[a] == old(t.nonces[a]) && in(a, t.nonces) == old(in(a, t.nonces))
+//@ ensures [maps-keep-their-objects] forall x: *txSortedMap :: { x.items } { x.index } x.items == old(x.items) && x.index == old(x.index)
+//@ ensures [price-lists-untouched] forall q: *txPricedList :: { q.items } q.items == old(q.items) && q.stales == old(q.stales) && *q.items == old(*q.items)
+//@ ensures [fresh-result] len(result) > 0 ==> fresh(result)
 //@ ensures [removes-exactly-matching] forall k: int :: { in(k, m.items) } { old(in(k, m.items)) } in(k, m.items) <==> old(in(k, m.items)) && !filter(old(m.items[k]))
 //@ ensures [kept-untouched] forall k: int :: { in(k, m.items) } in(k, m.items) ==> m.items[k] == old(m.items[k])
 //@ ensures [returned-match] forall j: int :: { result[j] } 0 <= j && j < len(result) ==> result[j] != nil && filter(result[j])
@@ -266,8 +293,10 @@ package core
 
 //@ spec func c20Price(tx: *types.Transaction) int = big(tx.data.Price)
 //@ spec func c20Gas(tx: *types.Transaction) int = tx.data.GasLimit
-// cost == V + GP * GL
-//@ spec func c20Cost(tx: *types.Transaction) int = big(tx.data.Amount) + big(tx.data.Price) * tx.data.GasLimit
+// cost == V + GP * GL. The product is kept behind the UNINTERPRETED c20Mul (read: c20Mul(a, b) is a * b; /verif/specs/stdlib/c20_types.spec states
+// (*Transaction).Cost with the same symbol): every clause about cost only compares costs, none needs a property of multiplication, and an
+// interpreted product next to the quantified invariants made unrelated obligations time out (non-linear arithmetic).
+//@ spec func c20Cost(tx: *types.Transaction) int = big(tx.data.Amount) + c20Mul(big(tx.data.Price), tx.data.GasLimit)
 //@ spec func c20TxOK(tx: *types.Transaction) bool = tx != nil && tx.data.Price != nil && tx.data.Amount != nil
 
 // Representation invariant of txList: a well-formed sorted map of well-formed transactions, and costcap / gascap are upper bounds
@@ -346,6 +375,54 @@ package core
 //@ ensures [wf] l.txs == old(l.txs) && l.costcap == old(l.costcap) && l.gascap == old(l.gascap) && c20MapOK(l.txs)
 //@ ensures [caps-upper-bound] c20CapsOK(l)
 
+// Remove(tx): deletes the transaction's NONCE from the list and reports whether it was present; in strict mode (pending lists) the followers
+// that are no longer executable — every higher nonce — are removed too and returned (the closure passed to (*txSortedMap).Filter is interpreted
+// at the call site by the current engine, engine_requests/C20.md §10); a non-strict list loses only that nonce. What is returned was in the list
+// and is gone from it, lower nonces are untouched, the invariant is kept, and nothing outside the list changes (frame as postconditions: the
+// callee Filter cannot have a `modifies` clause, §14). Not stated: that EVERY higher nonce of the old list appears in the returned slice (only
+// via [count]: as many returned as removed).
+//@ func (*txList).Remove props C20
+//@ opt per-return
+//@ panics none
+//@ requires [nonnil] l != nil && tx != nil
+//@ assume [invariant] l.txs != nil && c20MapOK(l.txs)     // the caps part of the list invariant is taken as a hypothesis of [caps-upper-bound] only (its cost product slows every other clause)
+//@ let n = c20Nonce(tx)
+//@ ensures [found-iff-present] result0 == old(in(n, l.txs.items))
+//@ ensures [absent-unchanged] !result0 ==> len(result1) == 0 && mapdom(l.txs.items) == old(mapdom(l.txs.items)) && mapval(l.txs.items) == old(mapval(l.txs.items))
+//@ ensures [removed] !in(n, l.txs.items)
+//@ ensures [kept-untouched] forall k: int :: { in(k, l.txs.items) } in(k, l.txs.items) ==> old(in(k, l.txs.items)) && l.txs.items[k] == old(l.txs.items[k])
+//@ ensures [only-strict-invalidates] !old(l.strict) ==> len(result1) == 0 && forall k: int :: { in(k, mapdom(l.txs.items)) } k != n ==> in(k, l.txs.items) == old(in(k, l.txs.items))
+//@ ensures [invalidated-from-list] forall j: int :: { result1[j] } 0 <= j && j < len(result1) ==> result1[j] != nil && (let m = c20Nonce(result1[j]) in let t = result1[j] in old(in(m, l.txs.items) && l.txs.items[m] == t))
+//@ ensures [invalidated-gone] forall j: int :: { result1[j] } 0 <= j && j < len(result1) ==> !in(c20Nonce(result1[j]), l.txs.items)
+//@ ensures [count] result0 ==> len(l.txs.items) == old(len(l.txs.items)) - 1 - len(result1)
+//@ ensures [wf] l.txs == old(l.txs) && l.costcap == old(l.costcap) && l.gascap == old(l.gascap) && l.strict == old(l.strict) && c20MapOK(l.txs)
+//@ ensures [caps-upper-bound] old(c20CapsOK(l)) ==> c20CapsOK(l)
+//@ ensures [pool-fields-untouched] forall p: *TxPool :: { p.pending } { p.queue } { p.all } { p.pendingNonces } { p.signer } { p.priced } p.pending == old(p.pending) && p.queue == old(p.queue) && p.all == old(p.all) &&
+//@     p.priced == old(p.priced) && p.pendingNonces == old(p.pendingNonces) && p.beats == old(p.beats) && p.locals == old(p.locals) && p.config == old(p.config) && p.signer == old(p.signer)
+//@ ensures [pool-parts-untouched] (forall t: *txLookup :: { t.all } t.all == old(t.all)) && (forall t: *txNoncer :: { t.nonces } { t.fallback } t.nonces == old(t.nonces) && t.fallback == old(t.fallback))
+// (pointwise, not `mapdom(..) == old(mapdom(..))`: addresses and hashes have the SMT sort of the field heaps, an assumed equality of address-keyed arrays makes z3
+//  generate extensionality skolems across all of them — engine_requests/C20.md §15)
+//@ ensures [pool-index-maps-untouched] forall p: *TxPool, a: common.Address :: { mapval(p.pending)[a] } { in(a, mapdom(p.pending)) } { mapval(p.queue)[a] } { in(a, mapdom(p.queue)) }
+//@     p.pending[a] == old(p.pending[a]) && in(a, p.pending) == old(in(a, p.pending)) && p.queue[a] == old(p.queue[a]) && in(a, p.queue) == old(in(a, p.queue))
+//@ ensures [pool-lookup-untouched] forall t: *txLookup, h: common.Hash :: { mapval(t.all)[h] } { in(h, mapdom(t.all)) } t.all[h] == old(t.all[h]) && in(h, t.all) == old(in(h, t.all))
+//@ ensures [pool-nonces-untouched] forall t: *txNoncer, a: common.Address :: { mapval(t.nonces)[a] } { in(a, mapdom(t.nonces)) } t.nonces[a] == old(t.nonces[a]) && in(a, t.nonces) == old(in(a, t.nonces))
+//@ ensures [lists-keep-their-maps] forall x: *txList :: { x.txs } x.txs == old(x.txs) && x.costcap == old(x.costcap) && x.gascap == old(x.gascap) && x.strict == old(x.strict)
+//@ ensures [maps-keep-their-objects] forall x: *txSortedMap :: { x.items } { x.index } x.items == old(x.items) && x.index == old(x.index)
+//@ ensures [price-lists-untouched] forall q: *txPricedList :: { q.items } q.items == old(q.items) && q.stales == old(q.stales) && *q.items == old(*q.items)
+//@ ensures [values-untouched] (forall b: *big.Int :: { big(b) } big(b) == old(big(b))) && (forall t: *types.Transaction :: { t.data } t.data == old(t.data))
+//@ ensures [fresh-invalids] len(result1) > 0 ==> fresh(result1)
+//@ ensures [invalidated-above] forall j: int :: { result1[j] } 0 <= j && j < len(result1) ==> c20Nonce(result1[j]) > n
+//@ ensures [strict-invalidates-all-above] old(l.strict) && result0 ==> forall k: int :: { in(k, mapdom(l.txs.items)) } in(k, l.txs.items) ==> k < n
+//@ ensures [lower-kept] forall k: int :: { in(k, l.txs.items) } k < n ==> in(k, l.txs.items) == old(in(k, l.txs.items))
+
+//@ func (*txList).Empty props C20
+//@ panics none
+//@ requires [nonnil] l != nil
+//@ assume [invariant] c20ListOK(l)
+//@ pure
+//@ opt noalloc
+//@ ensures [empty] result == (len(l.txs.items) == 0)
+
 //@ func (*txList).Len props C20
 //@ panics none
 //@ requires [nonnil] l != nil
@@ -366,6 +443,7 @@ package core
 //@ panics none
 //@ modifies nothing
 //@ ensures [fresh-empty] fresh(result) && result.strict == strict && len(result.txs.items) == 0 && result.gascap == 0 && big(result.costcap) == 0
+//@ ensures [fresh-parts] fresh(result.txs) && fresh(result.txs.items) && fresh(result.txs.index) && fresh(result.costcap)
 //@ ensures [wf] c20ListOK(result)
 
 // ---------------------------------------------------------------------------------------------------------------
@@ -401,12 +479,16 @@ package core
 //@ ensures [intrinsic-gas] result == nil ==> c20Gas(tx) >= c20Intr
 
 // The price-sorted list (eviction order) is outside what C20 claims here: ASSUMED thin frames (`nobody`), bodies not verified.
+// Put pushes onto the price heap (its own slice, possibly re-allocated by append); Removed counts stale entries and may rebuild the heap
+// in a freshly allocated slice behind a freshly allocated pointer (tx_list.go:427-429).
 //@ func (*txPricedList).Put props C20
 //@ nobody
-//@ modifies *l.items, all(elems(*types.Transaction))
+//@ modifies *l.items, elems(*l.items)
+//@ ensures [same-or-fresh-array] base(*l.items) == old(base(*l.items)) || fresh(*l.items)
 //@ func (*txPricedList).Removed props C20
 //@ nobody
 //@ modifies l.stales, l.items
+//@ ensures [same-or-fresh-heap] l.items == old(l.items) || (fresh(l.items) && fresh(*l.items))
 //@ effectfree time.Now
 
 // the lookup of all pooled transactions, keyed by hash
@@ -431,14 +513,14 @@ package core
 //@ requires [nonnil] t != nil && t.all != nil && tx != nil
 //@ modifies mapof(t.all)
 //@ ensures [added] in(c20Hash(tx), t.all) && t.all[c20Hash(tx)] == tx
-//@ ensures [others-kept] forall h: common.Hash :: h != c20Hash(tx) ==> in(h, t.all) == old(in(h, t.all)) && t.all[h] == old(t.all[h])
+//@ ensures [others-kept] forall h: common.Hash :: { mapval(t.all)[h] } { in(h, mapdom(t.all)) } h != c20Hash(tx) ==> in(h, t.all) == old(in(h, t.all)) && t.all[h] == old(t.all[h])
 
 //@ func (*txLookup).Remove props C20
 //@ panics none
 //@ requires [nonnil] t != nil && t.all != nil
 //@ modifies mapof(t.all)
 //@ ensures [removed] !in(hash, t.all)
-//@ ensures [others-kept] forall h: common.Hash :: h != hash ==> in(h, t.all) == old(in(h, t.all)) && t.all[h] == old(t.all[h])
+//@ ensures [others-kept] forall h: common.Hash :: { mapval(t.all)[h] } { in(h, mapdom(t.all)) } h != hash ==> in(h, t.all) == old(in(h, t.all)) && t.all[h] == old(t.all[h])
 
 // enqueueTx: the transaction goes to the SENDER's queue list, under the replacement rule; `all` gains it iff the list took it, and loses
 // exactly the replaced one; the pending index is not touched.
@@ -450,6 +532,8 @@ package core
 //@ requires [bump-range] pool.config.PriceBump < 2^63 - 100
 //@ assume [invariant] forall a: common.Address :: { pool.queue[a] } pool.queue[a] != nil ==> c20ListOK(pool.queue[a])
 //@ let from = c20Sender(pool.signer, tx)
+//@ modifies mapof(pool.queue), mapof(pool.all.all), pool.priced.stales, pool.priced.items, *pool.priced.items, elems(*pool.priced.items),
+//@     pool.queue[from].costcap, pool.queue[from].gascap, pool.queue[from].txs.cache, mapof(pool.queue[from].txs.items), *pool.queue[from].txs.index, all(elems(uint64))
 //@ assert before call (*txList).Add: [own-queue-list] a0 == pool.queue[c20Sender(pool.signer, tx)] && a0 != nil && a1 == tx
 //@ assert before call (*txList).Add: [pending-untouched-so-far] mapdom(pool.pending) == old(mapdom(pool.pending)) && mapval(pool.pending) == old(mapval(pool.pending))
 //@ ensures [refused] result1 != nil ==> result1 == ErrReplaceUnderpriced && !result0 && mapdom(pool.all.all) == old(mapdom(pool.all.all)) && mapval(pool.all.all) == old(mapval(pool.all.all))
@@ -457,6 +541,15 @@ package core
 //@ ensures [known-iff-queued] result1 == nil ==> c20Known(pool, hash)
 //@ ensures [pending-untouched] pool.pending == old(pool.pending) && mapdom(pool.pending) == old(mapdom(pool.pending)) && mapval(pool.pending) == old(mapval(pool.pending))
 //@ ensures [queue-list-wf] result1 == nil ==> c20ListOK(pool.queue[from])
+// what a caller that loops over enqueueTx needs to know about the locations named in `modifies`
+//@ ensures [queue-list-same-or-fresh] (old(pool.queue[from]) != nil ==> pool.queue[from] == old(pool.queue[from])) &&
+//@     (old(pool.queue[from]) == nil ==> fresh(pool.queue[from]) && fresh(pool.queue[from].txs) && fresh(pool.queue[from].txs.items) && fresh(pool.queue[from].txs.index))
+//@ ensures [other-queues-kept] forall a: common.Address :: { mapval(pool.queue)[a] } { in(a, mapdom(pool.queue)) } a != from ==> pool.queue[a] == old(pool.queue[a]) && in(a, pool.queue) == old(in(a, pool.queue))
+//@ ensures [lookup-gains-only-tx] forall h: common.Hash :: { mapval(pool.all.all)[h] } pool.all.all[h] == old(pool.all.all[h]) || pool.all.all[h] == tx || pool.all.all[h] == nil
+//@ ensures [price-heap-array-same-or-fresh] base(*pool.priced.items) == old(base(*pool.priced.items)) || fresh(*pool.priced.items)
+// (when the sender had no queue list the `modifies` locations through pool.queue[from] are fields of nil, i.e. arbitrary: say that no existing list's map is touched then)
+//@ ensures [new-queue-list-touches-no-old-map] old(pool.queue[from]) == nil ==> forall x: *txSortedMap :: { x.items } old(allocated(x.items)) ==>
+//@     mapdom(x.items) == old(mapdom(x.items)) && mapval(x.items) == old(mapval(x.items)) && len(x.items) == old(len(x.items))
 
 // promoteTx: the transaction goes to addr's pending list under the replacement rule; accepted: `all` holds it and the virtual nonce moves to
 // nonce+1; refused (an older, better one is pending): it is forgotten (`all` no longer holds it). The queue index is not touched.
@@ -478,12 +571,86 @@ package core
 
 // add: guards. A transaction reaches a list (queue via enqueueTx, or the pending list for an in-place replacement) only after validateTx
 // returned nil for it in this call; a known hash is refused.
-// ASSUMED thin contracts (`nobody`) for the eviction helpers on the pool-full path: they do not reassign the pool's index pointers or signer.
+// ASSUMED thin contracts (`nobody`) for the priced-list helpers on the pool-full path (Underpriced, Discard) and journalTx / queueTxEvent.
 //@ ghost var c20Valid: int
+
+// removeTx: "each pooled transaction is either pending or queued", "pending … gap-free … starting at the account's current nonce", "queued ones lie
+// strictly above": taking a transaction out keeps the indexes aligned — lookup, the sender's pending OR queue list, the registration of an emptied
+// list, the invalidated followers (back to the queue) and the sender's virtual nonce (never above the removed pending nonce afterwards).
+// VERIFIED per return statement (`opt per-return`): every clause is conditioned on ENTRY-state facts (was the nonce in the sender's pending list?),
+// not on the path taken, so the order of the blocks in the body is free and an early return that skips a duty fails the clause of that duty.
+// typestate of one removeTx call (see the directives below)
+//@ ghost var c20Inv: []*types.Transaction
+//@ ghost var c20Requeued: int
+//@ ghost var c20Unlinked: bool
 //@ func (*TxPool).removeTx props C20
-//@ nobody
-//@ ensures pool.signer == old(pool.signer) && pool.pending == old(pool.pending) && pool.queue == old(pool.queue) && pool.all == old(pool.all) && pool.all.all == old(pool.all.all) &&
-//@     pool.priced == old(pool.priced) && pool.config == old(pool.config) && pool.locals == old(pool.locals)
+//@ opt per-return
+//@ requires [nonnil] pool != nil && pool.all != nil && pool.all.all != nil && pool.pending != nil && pool.queue != nil && pool.priced != nil && pool.priced.items != nil &&
+//@     pool.beats != nil && pool.pendingNonces != nil && pool.pendingNonces.nonces != nil && pool.pendingNonces.fallback != nil
+//@ requires [distinct-indexes] pool.pending != pool.queue
+//@ requires [bump-range] pool.config.PriceBump < 2^63 - 100
+// ASSUMED (parts of the statement's global invariant that no contract establishes yet, props/C20.json): a pooled transaction has a recoverable
+// sender (it passed validateTx) — for the looked-up transaction at entry, and for each invalidated follower at the point where it is handed to
+// enqueueTx (which ignores types.Sender's error); the sender's pending list does not share its nonce map with any queue list ("either pending or
+// queued but not both" at the level of the containers; lists are only created by newTxList with fresh maps).
+//@ assume [invariant-lookup] pool.all.all[hash] != nil ==> c20SenderOK(pool.signer, pool.all.all[hash])
+//@ assume before call (*TxPool).enqueueTx: [requeued-sender-recoverable] c20SenderOK(pool.signer, a2)
+//@ assume [invariant-indexes-disjoint] forall b: common.Address :: { mapval(pool.queue)[b] } pool.queue[b] != nil && pool.pending[c20Sender(pool.signer, pool.all.all[hash])] != nil ==>
+//@     pool.queue[b].txs.items != pool.pending[c20Sender(pool.signer, pool.all.all[hash])].txs.items
+//@ let rtx = pool.all.all[hash]
+//@ let raddr = c20Sender(pool.signer, pool.all.all[hash])
+//@ let rn = c20Nonce(pool.all.all[hash])
+//@ let rlist = pool.pending[c20Sender(pool.signer, pool.all.all[hash])]
+//@ let rq = pool.queue[c20Sender(pool.signer, pool.all.all[hash])]
+//@ let wasPending = pool.all.all[hash] != nil && pool.pending[c20Sender(pool.signer, pool.all.all[hash])] != nil &&
+//@     in(c20Nonce(pool.all.all[hash]), pool.pending[c20Sender(pool.signer, pool.all.all[hash])].txs.items)
+//@ let noncer = pool.pendingNonces
+//@ let cur = if in(c20Sender(pool.signer, pool.all.all[hash]), pool.pendingNonces.nonces) then pool.pendingNonces.nonces[c20Sender(pool.signer, pool.all.all[hash])]
+//@     else c20StateNonce(pool.pendingNonces.fallback, c20Sender(pool.signer, pool.all.all[hash]))
+//@ modifies all, c20Requeued, c20Inv, c20Unlinked
+// typestate of the call: c20Unlinked — the hash was taken out of the lookup; c20Inv — the slice of invalidated followers that the pending-side Remove
+// returned; c20Requeued — how many of them were handed to enqueueTx so far (the k-th call gets the k-th element of the slice)
+//@ ghost at entry: c20Requeued := 0
+//@ ghost at entry: c20Unlinked := false
+//@ assert before call (*txLookup).Remove: [unlinks-the-removed-hash] a0 == pool.all && a1 == hash
+//@ ghost after call (*txLookup).Remove: c20Unlinked := true
+//@ ghost after call (*txList).Remove#1: c20Inv := ret1
+//@ assert before call (*TxPool).enqueueTx: [requeues-next-invalidated] a0 == pool && a2 == c20Inv[c20Requeued] && a1 == c20Hash(a2) && c20Requeued < len(c20Inv)
+//@ ghost before call (*TxPool).enqueueTx: c20Requeued := c20Requeued + 1
+// stepping stone before the queue-side Remove (also works around engine_requests/C20.md §12: a heap that the code does not read between the
+// if/else join after the pending-side Remove and this second havocking call would lose its connection to the entry state)
+//@ assert before call (*txList).Remove#2: [pending-side-kept-before-queue-removal] pool.signer == old(pool.signer) && pool.pending == old(pool.pending) && pool.queue == old(pool.queue) &&
+//@     pool.all == old(pool.all) && pool.all.all == old(pool.all.all) && pool.priced == old(pool.priced) && pool.config == old(pool.config) && pool.locals == old(pool.locals) &&
+//@     pool.pendingNonces == old(pool.pendingNonces) && pool.pendingNonces.nonces == old(pool.pendingNonces.nonces) && pool.beats == old(pool.beats) &&
+//@     pool.pending[raddr] == old(pool.pending[raddr]) && in(raddr, pool.pending) == old(in(raddr, pool.pending)) &&
+//@     pool.pendingNonces.nonces[raddr] == old(pool.pendingNonces.nonces[raddr]) && in(raddr, pool.pendingNonces.nonces) == old(in(raddr, pool.pendingNonces.nonces)) &&
+//@     !in(hash, pool.all.all) && !wasPending && a0 == rq && a1 == rtx
+// the re-queue loop: enqueueTx (proved `modifies`) writes the queue index, the lookup, the price heap and one queue list; none of that is the pending
+// index, the pending list the transaction came from, or the slice of invalidated followers
+//@ loop rangeindex invariant [pending-index-kept] forall a: common.Address :: { mapval(pool.pending)[a] } { in(a, mapdom(pool.pending)) } pool.pending[a] == entry(pool.pending[a]) && in(a, pool.pending) == entry(in(a, pool.pending))
+//@ loop rangeindex invariant [pending-list-kept] mapdom(rlist.txs.items) == entry(mapdom(rlist.txs.items)) && mapval(rlist.txs.items) == entry(mapval(rlist.txs.items)) &&
+//@     len(rlist.txs.items) == entry(len(rlist.txs.items))
+//@ loop rangeindex invariant [invalids-kept] elems(c20Inv) == entry(elems(c20Inv))
+//@ loop rangeindex invariant [price-heap-apart] len(c20Inv) > 0 ==> base(c20Inv) != base(*pool.priced.items)
+//@ loop rangeindex invariant [queue-lists-apart] forall b: common.Address :: { mapval(pool.queue)[b] } pool.queue[b] != nil ==> pool.queue[b].txs.items != rlist.txs.items
+//@ loop rangeindex invariant [requeued-so-far] c20Requeued == rangeindex + 1 && -1 <= rangeindex && rangeindex + 1 <= len(c20Inv)
+//@ ensures [pool-fields-kept] pool.signer == old(pool.signer) && pool.pending == old(pool.pending) && pool.queue == old(pool.queue) && pool.all == old(pool.all) && pool.all.all == old(pool.all.all) &&
+//@     pool.priced == old(pool.priced) && pool.config == old(pool.config) && pool.locals == old(pool.locals) && pool.pendingNonces == old(pool.pendingNonces)
+//@ ensures [unknown-hash-noop] rtx == nil ==> c20PoolView(pool) == old(c20PoolView(pool))
+//@ ensures [removed-from-all] rtx != nil ==> c20Unlinked
+//@ ensures [removed-from-all-exact] rtx != nil && !wasPending ==> !in(hash, pool.all.all)
+//@ ensures [removed-from-pending] wasPending ==> !in(rn, rlist.txs.items)
+//@ ensures [no-empty-pending-list] wasPending ==> (if len(rlist.txs.items) == 0 then !in(raddr, pool.pending) else pool.pending[raddr] == rlist)
+//@ ensures [other-pending-lists-kept] forall a: common.Address :: { mapval(pool.pending)[a] } { in(a, mapdom(pool.pending)) } a != raddr ==> pool.pending[a] == old(pool.pending[a]) && in(a, pool.pending) == old(in(a, pool.pending))
+//@ ensures [lower-pending-kept] wasPending ==> forall k: int :: { in(k, mapdom(rlist.txs.items)) } k < rn ==> in(k, rlist.txs.items) == old(in(k, rlist.txs.items))
+//@ ensures [pending-nonce-lowered-to-removed] wasPending ==> in(raddr, noncer.nonces) && noncer.nonces[raddr] <= rn
+//@ ensures [pending-nonce-exact] wasPending ==> noncer.nonces[raddr] == min(cur, rn)
+//@ ensures [other-nonces-kept] forall a: common.Address :: { mapval(noncer.nonces)[a] } { in(a, mapdom(noncer.nonces)) } a != raddr ==> in(a, noncer.nonces) == old(in(a, noncer.nonces)) && noncer.nonces[a] == old(noncer.nonces[a])
+//@ ensures [queued-removal-keeps-nonces] !wasPending ==> forall a: common.Address :: { mapval(noncer.nonces)[a] } { in(a, mapdom(noncer.nonces)) } in(a, noncer.nonces) == old(in(a, noncer.nonces)) && noncer.nonces[a] == old(noncer.nonces[a])
+//@ ensures [invalidated-followers-requeued] wasPending ==> c20Requeued == len(c20Inv)
+//@ ensures [nothing-requeued-otherwise] !wasPending ==> c20Requeued == 0
+//@ ensures [removed-from-queue] rtx != nil && !wasPending && rq != nil ==> !in(rn, rq.txs.items) && (if len(rq.txs.items) == 0 then !in(raddr, pool.queue) else pool.queue[raddr] == rq)
+//@ ensures [queued-removal-keeps-pending] !wasPending ==> forall a: common.Address :: { mapval(pool.pending)[a] } { in(a, mapdom(pool.pending)) } pool.pending[a] == old(pool.pending[a]) && in(a, pool.pending) == old(in(a, pool.pending))
 //@ func (*txPricedList).Underpriced props C20
 //@ nobody
 //@ modifies l.stales, *l.items, all(elems(*types.Transaction))
@@ -497,6 +664,22 @@ package core
 //@ nobody
 //@ modifies nothing
 
+// ---------------------------------------------------------------------------------------------------------------
+// The other writers of the virtual nonce (pendingNonces[addr] == state nonce + length of the gap-free pending run): promoteTx (verified above,
+// [pending-nonce-advanced]), removeTx (verified above), and the two below — THIN: bodies not verified (`nobody`: priority queue, channels, defer),
+// only the anchored asserts on the arguments of the nonce update are checked.
+// truncatePending: a transaction dropped from the tail of a pending list lowers the virtual nonce to ITS nonce and leaves the lookup under ITS hash
+// (`tx` is the loop variable over what Cap returned, at both sites).
+//@ func (*TxPool).truncatePending props C20
+//@ nobody
+//@ assert before call (*txLookup).Remove: [capped-tx-leaves-lookup] a0 == pool.all && a1 == c20Hash(tx)
+//@ assert before call (*txNoncer).setIfLower: [lowered-to-dropped-nonce] a0 == pool.pendingNonces && a2 == c20Nonce(tx)
+// runReorg: after promotion / demotion / truncation every account that owns a pending list gets the nonce after its LAST pending transaction
+// (the order of Flatten() is not modelled: "last" is the last element of the flattened slice).
+//@ func (*TxPool).runReorg props C20
+//@ nobody
+//@ assert before call (*txNoncer).set: [refreshed-to-one-above-last-pending] a0 == pool.pendingNonces && a1 == addr && a2 == wrap64(c20Nonce(txs[len(txs) - 1]) + 1)
+
 //@ func (*TxPool).add props C20
 //@ requires [nonnil] pool != nil && c20TxOK(tx) && pool.pending != nil && pool.queue != nil && pool.all != nil && pool.all.all != nil && pool.priced != nil && pool.priced.items != nil &&
 //@     pool.currentState != nil && pool.locals != nil && pool.locals.accounts != nil && pool.gasPrice != nil && pool.router != nil
@@ -505,7 +688,7 @@ package core
 //@ ghost after call (*TxPool).validateTx: c20Valid := if ret == nil then a1 else 0
 //@ loop #1 invariant [pool-fields-kept] pool.signer == old(pool.signer) && pool.config == old(pool.config) && pool.pending == old(pool.pending) && pool.queue == old(pool.queue) &&
 //@     pool.all == old(pool.all) && pool.all.all == old(pool.all.all) && pool.priced == old(pool.priced) && pool.locals == old(pool.locals) && c20Valid == tx
-//@ modifies all, c20Valid, c20Intr
+//@ modifies all, c20Valid, c20Intr, c20Requeued, c20Inv, c20Unlinked
 //@ assert before call (*TxPool).enqueueTx: [validated-before-queue] c20Valid == a2 && a2 == tx && a1 == c20Hash(tx)
 //@ assert before call (*txList).Add: [validated-before-replace] c20Valid == a1 && a1 == tx
 //@ assert before call (*txList).Add: [replace-only-overlapping-pending] a0 == pool.pending[from] && in(c20Nonce(tx), a0.txs.items)
